@@ -96,6 +96,7 @@ Proof.
   - unfold harvest. crush_fail.
   - unfold adjust. crush_fail.
   - unfold destroy. crush_fail.
+  - unfold update_params. crush_fail.
 Qed.
 
 (** ** every step of the model, every pool: the checker's per-rule relation *)
@@ -122,7 +123,7 @@ Proof.
       - assert (refund_event (height s) (obs_of s oc0 rw0) (Msg m) (obs_of s o []) pid = false) as ->.
         { destruct m; simpl; try reflexivity. change (o_code (obs_of s o [])) with (outcome_code o). rewrite Hc, andb_false_r. reflexivity. }
         apply ps_same; [exact Hok|reflexivity|reflexivity]. }
-    destruct m as [who lpt start ed rules|who pid' d amt|who pid' d amt|who pid'|who pid' add rpb|who pid']; simpl in E;
+    destruct m as [who lpt start ed rules|who pid' d amt|who pid' d amt|who pid'|who pid' add rpb|who pid'|who cf tr]; simpl in E;
       cbn [refund_event].
     + destruct (create_Done _ _ _ _ _ _ _ _ E) as (b1 & b2 & iv & _ & _ & _ & _ & _ & _ & _ & _ & ->).
       exists pa. split; [simpl; rewrite get_set_other by lia; exact Hg|]. tp0. apply ps_same; [exact Hok|reflexivity|reflexivity].
@@ -167,6 +168,8 @@ Proof.
         eexists. split; [simpl; rewrite get_set_same; reflexivity|]. tp0. exact (ps_refund _ _ _ _ _ PI Hu).
       * destruct (Z.eqb_spec pid' pid); [contradiction|].
         exists pa. split; [rewrite (refund_get_other _ _ _ _ _ _ Hne Hr); exact Hg|]. tp0. apply ps_same; [exact Hok|reflexivity|reflexivity].
+    + destruct (update_params_Done _ _ _ _ _ _ E) as (_ & _ & _ & _ & ->).
+      exists pa. split; [exact Hg|]. tp0. apply ps_same; [exact Hok|reflexivity|reflexivity].
   - (* next block *)
     unfold exec_step. cbn [fst snd refund_event]. change (o_queue (obs_of s oc0 rw0)) with (queue s). unfold end_block.
     destruct (in_dec Z.eq_dec pid (due s)) as [Hin|Hni].
@@ -319,7 +322,7 @@ Lemma new_pool_lemma s st pid pb :
 Proof.
   intros Hn Hs. unfold step_state in Hs. destruct st as [m|]; unfold exec_step in *.
   - destruct (exec_msg s m) as [s' rw|o] eqn:E; cbn [fst snd] in *; [|congruence].
-    destruct m as [who lpt start ed rules|who pid' d amt|who pid' d amt|who pid'|who pid' add rpb|who pid']; simpl in E.
+    destruct m as [who lpt start ed rules|who pid' d amt|who pid' d amt|who pid'|who pid' add rpb|who pid'|who cf tr]; simpl in E.
     + destruct (create_Done _ _ _ _ _ _ _ _ E) as (b1 & b2 & iv & _ & _ & _ & _ & _ & _ & _ & _ & ->). simpl in Hs.
       destruct (Z.eq_dec pid (seq s + 1)) as [->|Hne].
       * rewrite get_set_same in Hs. inversion Hs; subst pb. exists who, lpt, start, ed, rules. simpl. auto 10.
@@ -338,6 +341,7 @@ Proof.
       rewrite get_set_other in Hs by congruence. congruence.
     + destruct (destroy_Done _ _ _ _ _ E) as (p0 & Hg0 & _ & _ & _ & Hr & _).
       assert (pid' <> pid) as Hne by congruence. rewrite (refund_get_other _ _ _ _ _ _ Hne Hr) in Hs. congruence.
+    + destruct (update_params_Done _ _ _ _ _ _ E) as (_ & _ & _ & _ & ->). simpl in Hs. congruence.
   - simpl in Hs. unfold end_block in Hs. rewrite fold_none in Hs by exact Hn. discriminate.
 Qed.
 
@@ -405,7 +409,7 @@ Lemma refund_at_effect s st pid :
   inv s -> valid_step st -> refund_at s st pid = true -> queued s pid /\ unqueued (step_state s st) pid.
 Proof.
   intros I Hv H. unfold refund_at in H. destruct st as [m|].
-  - destruct m as [ | | | | |who pid']; cbn [refund_event] in H; try discriminate.
+  - destruct m as [ | | | | |who pid'| ]; cbn [refund_event] in H; try discriminate.
     apply andb_true_iff in H. destruct H as [Hp Hc]. apply Z.eqb_eq in Hp. subst pid'.
     destruct (exec_msg s (Destroy who pid)) as [s' rw|o] eqn:E; [|rewrite (exec_fail_code _ _ _ E) in Hc; discriminate].
     simpl in E. destruct (destroy_needs_queued _ _ _ _ _ I E) as (p & Hg & Hq & Hr).
@@ -436,7 +440,7 @@ Qed.
 Lemma unqueued_no_refund s st pid : inv s -> unqueued s pid -> refund_at s st pid = false.
 Proof.
   intros I Hu. unfold refund_at. destruct st as [m|].
-  - destruct m as [ | | | | |who pid']; cbn [refund_event]; try reflexivity.
+  - destruct m as [ | | | | |who pid'| ]; cbn [refund_event]; try reflexivity.
     destruct (Z.eqb_spec pid' pid) as [->|Hne]; [|reflexivity]. cbn [andb].
     destruct (exec_msg s (Destroy who pid)) as [s' rw|o] eqn:E; [|exact (exec_fail_code _ _ _ E)].
     simpl in E. destruct (destroy_needs_queued _ _ _ _ _ I E) as (p & Hg & Hq & _). rewrite (Hu (p_end p)) in Hq. discriminate.
@@ -475,7 +479,7 @@ Proof.
   apply in_queue_true in Hq.
   destruct st as [m|]; unfold exec_step.
   - destruct (exec_msg s m) as [s' rw|o] eqn:E; cbn [fst]; [|exists p; split; [exact Hg|apply in_queue_true; exact Hq]].
-    destruct m as [who lpt start ed rules|who pid' d amt|who pid' d amt|who pid'|who pid' add rpb|who pid']; simpl in E.
+    destruct m as [who lpt start ed rules|who pid' d amt|who pid' d amt|who pid'|who pid' add rpb|who pid'|who cf tr]; simpl in E.
     + destruct (create_Done _ _ _ _ _ _ _ _ E) as (b1 & b2 & iv & _ & _ & _ & _ & _ & _ & _ & _ & ->). simpl.
       exists p. rewrite get_set_other by lia. split; [exact Hg|]. apply in_queue_true. apply in_enqueue. left. exact Hq.
     + destruct (stake_Done _ _ _ _ _ _ _ E) as (p0 & b1 & p1 & b2 & rw0' & db & b3 & Hs). cbv zeta in Hs.
@@ -516,6 +520,8 @@ Proof.
       * rewrite (refund_get_other _ _ _ _ _ _ Hne Hr). exists p. split; [exact Hg|]. apply in_queue_true.
         destruct (refund_cases _ _ _ _ _ Hr) as [(p1 & b1 & _ & _ & ->)|(p1 & b1 & b' & _ & -> & _)]; simpl;
           apply in_dequeue; (split; [exact Hq|congruence]).
+    + destruct (update_params_Done _ _ _ _ _ _ E) as (_ & _ & _ & _ & ->). simpl.
+      exists p. split; [exact Hg|apply in_queue_true; exact Hq].
   - cbn [fst]. simpl. unfold refund_at in HR. cbn [refund_event] in HR. change (o_queue (obs_before s)) with (queue s) in HR.
     assert (~ In pid (due s)) as Hni.
     { intros Hin. apply in_due in Hin. apply in_queue_true in Hin. congruence. }
